@@ -7,7 +7,11 @@ reference), hermitian (model Hamiltonians, real parameters); for linear_fermioni
 orientation-independent facts anticommutator (op op^dag + op^dag op = sum|f|^2 I) and adjoint
 (mpo(f,'a') == mpo(conj f,'c')^dag).
 """
-import itertools, json
+import itertools, json, os
+# single-threaded BLAS (vt/check.py sets the same for the runner): 14 worker processes x the OpenBLAS thread pool
+# oversubscribe the 16 cores (measured: 235 s instead of 25 s wall); only effective if numpy is not yet imported
+for _v in ('OMP_NUM_THREADS', 'OPENBLAS_NUM_THREADS', 'MKL_NUM_THREADS'):
+    os.environ.setdefault(_v, '1')
 import numpy as np
 import pytenet as ptn
 from . import oracle, h_ham
